@@ -103,20 +103,35 @@ class Decider:
             lem = self.must[:4000] + lem       # loop-terminating folds (unwinding assertions) are always included
         failed = 0
         t0 = time.time()
-        for i in range(0, len(lem), batch):
+        unknown = 0
+
+        def prove(part):
+            """'unsat' batch = every lemma of it re-proved; an `unknown` batch (solver timeout) is split and retried"""
+            nonlocal failed, unknown
             terms = []
-            for (op, args, res) in lem[i:i + batch]:
+            for (op, args, res) in part:
                 for a in args:
                     self.smt.define(a)
                 if not is_c(res):
                     self.smt.define(res)
                 gate = '(%s %s)' % (op, ' '.join(self.smt.name(a) for a in args))
                 terms.append('(xor %s %s)' % (gate, self.smt.name(res)))
-            if terms:
-                r = self._q(['(or false %s)' % ' '.join(terms)])
-                if r != 'unsat':
-                    failed += 1
-        return dict(total=self.n_lemmas, checked=len(lem), full=full, loop_exit_folds=len(self.must), failed=failed, secs=round(time.time() - t0, 2))
+            if not terms:
+                return
+            r = self._q(['(or false %s)' % ' '.join(terms)])
+            if r == 'unsat':
+                return
+            if r == 'sat' or len(part) <= 25:
+                failed += 1
+                unknown += r != 'sat'
+                return
+            h = len(part) // 2
+            prove(part[:h])
+            prove(part[h:])
+
+        for i in range(0, len(lem), batch):
+            prove(lem[i:i + batch])
+        return dict(unknown_batches=unknown, total=self.n_lemmas, checked=len(lem), full=full, loop_exit_folds=len(self.must), failed=failed, secs=round(time.time() - t0, 2))
 
     def cross(self, timeout=180):
         return cross_check(self.smt, timeout)
